@@ -225,7 +225,7 @@ impl<const N: usize> Live<N> {
         Ok(Live { q, t, dev, bufs: vec![], held: BTreeMap::new(), indirect, event_idx, ap, dev_written: HashMap::new(), old_idx: 0, added: 0, popped: 0, hostile: false })
     }
 
-    fn sync_dev_to_store(&self) {
+    pub fn sync_dev_to_store(&self) {
         STORE.with(|s| {
             if let Some(ctx) = s.borrow_mut().as_mut() {
                 ctx.dev.fetch_idx = self.dev.fetch_idx;
@@ -248,9 +248,13 @@ impl<const N: usize> Live<N> {
     fn take_evs(&self) -> (String, Vec<(u64, HalEv)>) {
         let h = hal::take_events();
         let mut all: Vec<(u64, String)> = h.iter().map(|(s, e)| (*s, e.canon())).collect();
+        let hostile = self.hostile;
         STORE.with(|s| {
             if let Some(ctx) = s.borrow_mut().as_mut() {
-                all.extend(std::mem::take(&mut ctx.events));
+                let st = std::mem::take(&mut ctx.events);
+                if !hostile {
+                    all.extend(st);
+                }
             }
         });
         all.sort_by_key(|(s, _)| *s);
@@ -288,7 +292,7 @@ impl<const N: usize> Live<N> {
         }
         let outs: Vec<usize> = out_lens.iter().map(|l| self.new_buf(*l, 0xEE)).collect();
         let fmt = |v: &Vec<usize>, b: &Vec<Vec<u8>>| if v.is_empty() { "-".to_string() } else { v.iter().map(|i| format!("{}:{}", i, b[*i].len())).collect::<Vec<_>>().join(",") };
-        let op = format!("queue add in={} out={}", fmt(&ins, &self.bufs), fmt(&outs, &self.bufs));
+        let op = format!("queue add in={} out={}{}", fmt(&ins, &self.bufs), fmt(&outs, &self.bufs), if self.hostile { " nost=1" } else { "" });
         let (_, _, avail_before, _) = self.q.verif_state();
         let free_before = self.q.available_desc();
         let r = {
@@ -360,6 +364,7 @@ impl<const N: usize> Live<N> {
                 // C01: the device parses the new entry and finds exactly these segments
                 let slot = avail_before % N as u16;
                 match (self.dev.avail_ring(slot), self.dev.avail_idx()) {
+                    _ if self.hostile => {}
                     (Ok(h), Ok(idx)) => {
                         if h != t {
                             c.fail(format!("[C01] ring slot {} holds {} but add returned token {}", slot, h, t));
@@ -387,7 +392,7 @@ impl<const N: usize> Live<N> {
                     (a, b) => c.fail(format!("[C01] cannot read available ring: {:?} {:?}", a.err(), b.err())),
                 }
                 // C02: the index store is the last device-visible change of the submission
-                if !evs.ends_with(&format!("idx={}", avail_before.wrapping_add(1))) {
+                if !self.hostile && !evs.ends_with(&format!("idx={}", avail_before.wrapping_add(1))) {
                     c.fail(format!("[C02] available index is not the last device-visible location to change: {}", evs));
                 }
                 STORE.with(|s| {
@@ -474,7 +479,7 @@ impl<const N: usize> Live<N> {
             None => return,
         };
         let fmt = |v: &Vec<usize>, b: &Vec<Vec<u8>>| if v.is_empty() { "-".to_string() } else { v.iter().map(|i| format!("{}:{}", i, b[*i].len())).collect::<Vec<_>>().join(",") };
-        let op = format!("queue pop tok={} in={} out={}", token, fmt(&ins, &self.bufs), fmt(&outs, &self.bufs));
+        let op = format!("queue pop tok={} in={} out={}{}", token, fmt(&ins, &self.bufs), fmt(&outs, &self.bufs), if self.hostile { " nost=1" } else { "" });
         let before = self.q.verif_state();
         let peek = self.q.peek_used();
         let can = self.q.can_pop();
@@ -523,7 +528,7 @@ impl<const N: usize> Live<N> {
                     c.fail(format!("[C03] pop_used({}) succeeded but the used ring head was {:?}", token, peek));
                 }
                 if let Some(l) = used_len_expected {
-                    if l != len {
+                    if l != len && !self.hostile {
                         c.fail(format!("[C03] pop_used returned len {} but the device recorded {}", len, l));
                     }
                 }
@@ -535,7 +540,7 @@ impl<const N: usize> Live<N> {
                     c.fail(format!("[C04] pop of {} buffers produced HAL events: {}", k, evs));
                 }
                 // C04: device-written bytes now (and only now) visible in the caller's writable buffers
-                if let Some(data) = self.dev_written.remove(&token) {
+                if let Some(data) = self.dev_written.remove(&token).filter(|_| !self.hostile) {
                     let mut off = 0;
                     for i in &outs {
                         let b = &self.bufs[*i];
@@ -774,6 +779,144 @@ pub fn structured<const N: usize>(cfg: QCfg, id: String, mut rng: Rng) -> Case {
     STORE.with(|s| *s.borrow_mut() = None);
     drop(l);
     c
+}
+
+/// Hostile device (C07): arbitrary used-ring ids / lengths / index jumps, repeated and never-issued
+/// ids, scribbling over the descriptor table and the available ring; the caller (this harness)
+/// keeps to the contract of the `unsafe fn`s: it only polls tokens it holds, with their buffers.
+pub fn hostile<const N: usize>(cfg: QCfg, id: String, mut rng: Rng) -> Case {
+    let mut c = Case::new(id);
+    c.tag(format!("n={}", N));
+    c.tag("hostile");
+    let mut l = match Live::<N>::new(cfg.indirect, cfg.event_idx, cfg.ap) {
+        Ok(l) => l,
+        Err(e) => {
+            c.fail(format!("cannot create queue: {}", e));
+            return c;
+        }
+    };
+    l.hostile = true;
+    c.step(format!("queue new n={} ind={} ev={} ap={}", N, cfg.indirect as u8, cfg.event_idx as u8, cfg.ap as u8), format!("ok | - | {}", l.priv_str()));
+    let mut used_idx: u16 = 0;
+    for _ in 0..cfg.steps {
+        if c.steps.last().map(|(_, o)| o.starts_with("panic")).unwrap_or(false) {
+            break;
+        }
+        let r = rng.below(100);
+        if r < 35 {
+            let free = l.q.available_desc();
+            let k = match rng.below(6) {
+                0 => free,
+                1 => 2,
+                2 => 3,
+                _ => 1,
+            }
+            .min(N + 1);
+            let (i, o) = gen_lens(&mut rng, k);
+            l.add(&mut c, &i, &o, &mut rng);
+        } else if r < 60 {
+            // raw used element: ids the device never fetched, out of range, repeated, huge
+            let held: Vec<u16> = l.held.keys().cloned().collect();
+            let id: u32 = match rng.below(6) {
+                0 => rng.next() as u32,
+                1 => N as u32 + rng.below(4) as u32,
+                2 => 0x1_0000 + rng.below(N as u64) as u32, // aliases a valid token after `as u16`
+                3 if !held.is_empty() => *rng.pick(&held) as u32,
+                4 if !held.is_empty() => *rng.pick(&held) as u32,
+                _ => rng.below(N as u64) as u32,
+            };
+            let len = rng.u32_biased();
+            let slot = used_idx % N as u16;
+            let mut b = [0u8; 8];
+            b[0..4].copy_from_slice(&id.to_le_bytes());
+            b[4..8].copy_from_slice(&len.to_le_bytes());
+            let _ = hal::dev_write(l.dev.used + 4 + 8 * slot as u64, &b);
+            c.step(format!("queue usedelem slot={} id={} len={}", slot, id, len), format!("ok | - | {}", l.priv_str()));
+            used_idx = used_idx.wrapping_add(1);
+            let _ = hal::dev_write(l.dev.used + 2, &used_idx.to_le_bytes());
+            c.step(format!("queue usedidx v={}", used_idx), format!("ok | - | {}", l.priv_str()));
+        } else if r < 66 {
+            // index jump
+            used_idx = match rng.below(3) {
+                0 => used_idx.wrapping_add(rng.below(N as u64 + 2) as u16),
+                1 => used_idx.wrapping_sub(1),
+                _ => rng.u16_biased(),
+            };
+            let _ = hal::dev_write(l.dev.used + 2, &used_idx.to_le_bytes());
+            c.step(format!("queue usedidx v={}", used_idx), format!("ok | - | {}", l.priv_str()));
+        } else if r < 80 {
+            // scribble over driver-owned areas
+            let n = N as u64;
+            match rng.below(3) {
+                0 => {
+                    let i = rng.below(n);
+                    let junk = rng.bytes(16);
+                    let _ = hal::dev_write(l.dev.desc + 16 * i, &junk);
+                }
+                1 => {
+                    let s = rng.below(n);
+                    let _ = hal::dev_write(l.dev.avail + 4 + 2 * s, &(rng.next() as u16).to_le_bytes());
+                }
+                _ => {
+                    let _ = hal::dev_write(l.dev.avail + 2, &(rng.next() as u16).to_le_bytes());
+                }
+            }
+            l.sync_dev_to_store();
+            c.step("queue scribble", format!("ok | - | {}", l.priv_str()));
+        } else {
+            // the caller polls: the token at the head of the used ring if it holds it, else one it holds
+            let held: Vec<u16> = l.held.keys().cloned().collect();
+            if !held.is_empty() {
+                let tok = match l.q.peek_used() {
+                    Some(t) if l.held.contains_key(&t) && rng.chance(3, 4) => t,
+                    _ => *rng.pick(&held),
+                };
+                l.pop(&mut c, tok);
+            }
+        }
+        // the driver's private accounting must stay exact whatever the device does
+        let held_descs: usize = l.held.values().map(|h| if l.indirect && h.ins.len() + h.outs.len() > 1 { 1 } else { h.ins.len() + h.outs.len() }).sum();
+        let (nu, _, _, _) = l.q.verif_state();
+        if nu as usize != held_descs {
+            c.fail(format!("[C07] driver state corrupted by the device: num_used {} but the caller holds chains of {} descriptors", nu, held_descs));
+        }
+        let live = hal::with(|h| h.live_shares());
+        let want_live: usize = l.held.values().map(|h| h.ins.len() + h.outs.len() + (l.indirect && h.ins.len() + h.outs.len() > 1) as usize).sum();
+        if live != want_live {
+            c.fail(format!("[C07] {} ranges shared with the device, the caller's outstanding chains account for {}", live, want_live));
+        }
+        for v in hal::with(|h| std::mem::take(&mut h.violations)) {
+            c.fail(format!("[C07] ledger: {}", v));
+        }
+    }
+    // retag: in this stream every ledger / panic failure is a C07 failure
+    for f in c.oracle_failures.iter_mut() {
+        if f.starts_with("[C04] ledger") || f.starts_with("[C03] pop_used") {
+            *f = format!("[C07] {}", f);
+        }
+    }
+    c.nontrivial = l.popped > 0 || l.added > 0;
+    STORE.with(|s| *s.borrow_mut() = None);
+    c
+}
+
+pub fn hostile_dyn(cfg: QCfg, id: String, rng: Rng) -> Case {
+    by_size!(cfg.n, hostile, cfg, id, rng)
+}
+
+pub fn run_hostile(ctx: &Ctx, nq: usize, nt: usize) -> Vec<Case> {
+    install_hooks();
+    let n = ctx.tier.pick(nq, nt);
+    let cases = crate::runner::par_cases(ctx, "C07", "hostile", n, |i, id| {
+        let mut rng = ctx.case_rng("C07-hostile", i);
+        let mut cfg = cfg_for(ctx, i, &mut rng, true);
+        cfg.soak = false;
+        if cfg.n > 256 {
+            cfg.n = 256;
+        }
+        hostile_dyn(cfg, id, rng)
+    });
+    filter_for("C07", cases)
 }
 
 /// `k` add/complete/pop cycles with one 8-byte writable buffer, on the real queue and the
